@@ -332,6 +332,13 @@ def path_summaries(f: FuncInfo, limit: int = 512, body: Optional[List[ast.stmt]]
         elif isinstance(t, ast.Subscript) and isinstance(t.value, ast.Name):
             nm = t.value.id
             env[nm] = call("__store__", env.get(nm, ast.Name(id=nm, ctx=ast.Load())), sub(t.slice, env), v)
+        elif isinstance(t, ast.Subscript) and _sub_root(t) is not None:
+            # A[i][j] = v writes element (i, j) of A: one store with the chained indices side by side
+            nm, chain_ = _sub_root(t)
+            idx = []
+            for sl in chain_:
+                idx.extend(sl.elts if isinstance(sl, ast.Tuple) else [sl])
+            env[nm] = call("__store__", env.get(nm, ast.Name(id=nm, ctx=ast.Load())), sub(ast.Tuple(elts=idx, ctx=ast.Load()), env), v)
         else:
             eff.append(ast.Assign(targets=[sub(t, env)], value=v, lineno=getattr(t, "lineno", 0)))
 
@@ -439,6 +446,17 @@ def path_summaries(f: FuncInfo, limit: int = 512, body: Optional[List[ast.stmt]]
             run(rest, conds, env, eff, k)
     run(list(body if body is not None else f.node.body), [], dict(env0 or {}), [], [])
     return None if over[0] else out
+
+
+def _sub_root(t):
+    """(name, [slice, ...] outermost base first) for a chained subscript A[i][j] rooted at a name, else None"""
+    chain_ = []
+    while isinstance(t, ast.Subscript):
+        chain_.append(t.slice)
+        t = t.value
+    if isinstance(t, ast.Name) and len(chain_) >= 2:
+        return t.id, list(reversed(chain_))
+    return None
 
 
 def _replace(tree, target, repl):
